@@ -21,7 +21,7 @@ RULE = ("cases = propagator (restricted, unrestricted, cpmc, cpmc_slow, cpmc_nn,
         "strength x trial quality x walker noise x history (n steps, QR every 5-50, reconfiguration every 10-100, injection schedule: |x| up to 40, "
         "+-inf, NaN in one walker's row); non-trivial = history in which at least one weight changed and (for injection cases) the injected "
         "event was applied to a live walker")
-MIN_NONTRIVIAL = {"quick": 40, "thorough": 300}
+MIN_NONTRIVIAL = {"quick": 40, "thorough": 250}
 TIMEOUT = {"quick": 2400, "thorough": 10800}
 ASSUMPTIONS = ["phaseless propagators: per-step factor in {0} U [1e-3, 100] and product <= 100; CPMC propagators: weight in {0} U (0, 100] "
                "(their lower clip 1e-8 is applied before the final population-control factor, so only non-negativity is demanded below 1e-8)",
